@@ -13,6 +13,7 @@ import (
 	"fmt"
 	"io"
 	"net"
+	"strings"
 	"sync"
 	"sync/atomic"
 	"time"
@@ -215,4 +216,223 @@ func (l *sharedLeg) stop() {
 	case <-l.done:
 	case <-time.After(20 * time.Second):
 	}
+}
+
+// streamLeg -------------------------------------------------------------------
+
+// streamLeg is an FSimpleServer on an in-memory (pipe) or TCP listener whose
+// accepted transports are known to the monitor by address, so that a goroutine
+// dump can tell whether a connection still has its serving goroutine
+// (FSimpleServer.accept(srv, transport)): FSimpleServer neither closes a
+// connection it stops serving nor tells anybody.
+type streamLeg struct {
+	kind    string
+	handler *e2e.Handler
+	srv     *frugal.FSimpleServer
+	st      *trackingServerTransport
+	addr    string
+}
+
+type trackedTransport struct {
+	thrift.TTransport
+	key string
+}
+
+type trackingServerTransport struct {
+	inner thrift.TServerTransport // tcp
+	pipes chan *trackedTransport  // pipe
+	quit  chan struct{}
+	once  sync.Once
+	mu    sync.Mutex
+	byKey map[string]*trackedTransport
+}
+
+func (t *trackingServerTransport) Listen() error {
+	if t.inner != nil {
+		return t.inner.Listen()
+	}
+	return nil
+}
+
+func (t *trackingServerTransport) Accept() (thrift.TTransport, error) {
+	if t.inner != nil {
+		c, err := t.inner.Accept()
+		if err != nil {
+			return nil, err
+		}
+		w := &trackedTransport{TTransport: c}
+		if s, ok := c.(*thrift.TSocket); ok && s.Conn() != nil {
+			w.key = s.Conn().RemoteAddr().String()
+		}
+		t.mu.Lock()
+		t.byKey[w.key] = w
+		t.mu.Unlock()
+		return w, nil
+	}
+	select {
+	case w := <-t.pipes:
+		t.mu.Lock()
+		t.byKey[w.key] = w
+		t.mu.Unlock()
+		return w, nil
+	case <-t.quit:
+		return nil, thrift.NewTTransportException(thrift.NOT_OPEN, "server transport closed")
+	}
+}
+
+func (t *trackingServerTransport) Close() error {
+	t.once.Do(func() { close(t.quit) })
+	if t.inner != nil {
+		return t.inner.Close()
+	}
+	return nil
+}
+
+func (t *trackingServerTransport) Interrupt() error {
+	t.once.Do(func() { close(t.quit) })
+	if t.inner != nil {
+		return t.inner.Interrupt()
+	}
+	return nil
+}
+
+var pipeSeq uint64
+
+func startStreamLeg(kind, proto string) (*streamLeg, error) {
+	l := &streamLeg{kind: kind, handler: &e2e.Handler{Behave: behave}}
+	l.st = &trackingServerTransport{quit: make(chan struct{}), byKey: map[string]*trackedTransport{}}
+	if kind == "tcp" {
+		ss, err := thrift.NewTServerSocket("127.0.0.1:0")
+		if err != nil {
+			return nil, err
+		}
+		if err := ss.Listen(); err != nil {
+			return nil, err
+		}
+		l.addr = ss.Addr().String()
+		l.st.inner = ss
+	} else {
+		l.st.pipes = make(chan *trackedTransport, 64)
+	}
+	l.srv = frugal.NewFSimpleServer(mainsvc.NewFFooProcessor(l.handler), l.st, rig.ProtocolFactory(proto))
+	go l.srv.Serve()
+	return l, nil
+}
+
+func (l *streamLeg) stop() { l.srv.Stop() }
+
+// open returns a raw connection and the key under which the server side of it
+// is tracked.
+func (l *streamLeg) open() (rig.RawConn, string, error) {
+	if l.kind == "tcp" {
+		c, err := net.Dial("tcp", l.addr)
+		if err != nil {
+			return nil, "", err
+		}
+		return rig.NewStreamRaw(c), c.LocalAddr().String(), nil
+	}
+	a, b := net.Pipe()
+	w := &trackedTransport{TTransport: thrift.NewTSocketFromConnConf(b, nil), key: fmt.Sprintf("pipe-%d", atomic.AddUint64(&pipeSeq, 1))}
+	l.st.pipes <- w
+	return rig.NewStreamRaw(a), w.key, nil
+}
+
+// serving reports what a goroutine dump says about the connection: served =
+// a goroutine is inside FSimpleServer.accept for this server and this
+// transport; undecided = the server has not accepted it yet or a connection
+// goroutine of this process has been created but has not entered accept yet.
+func (l *streamLeg) serving(key string) (served, undecided, idle bool) {
+	l.st.mu.Lock()
+	w := l.st.byKey[key]
+	l.st.mu.Unlock()
+	if w == nil {
+		return false, true, false
+	}
+	srvPtr, trPtr := fmt.Sprintf("(%p, ", l.srv), fmt.Sprintf("%p}", w)
+	for _, g := range strings.Split(allStacks(), "\n\n") {
+		lines := strings.Split(g, "\n")
+		hasAccept := false
+		for _, ln := range lines {
+			if strings.HasPrefix(ln, "github.com/Workiva/frugal/lib/go.(*FSimpleServer).accept(") {
+				hasAccept = true
+				if strings.Contains(ln, srvPtr) && strings.Contains(ln, trPtr) {
+					// idle = parked at a request boundary: Process is waiting for the
+					// size prefix of the next frame, nothing is buffered or half read
+					idle = strings.Contains(g, "(*TFramedTransport).readFrameHeader(") &&
+						strings.Contains(g, "lib/go.readHeader(") &&
+						strings.Contains(g, "(*FProtocol).ReadRequestHeader(") &&
+						(strings.Contains(lines[0], "[IO wait") || strings.Contains(lines[0], "[select"))
+					return true, false, idle
+				}
+			}
+		}
+		if !hasAccept && strings.Contains(g, "(*FSimpleServer).acceptLoop.func1") && !strings.Contains(g, "(*FSimpleServer).acceptLoop(") {
+			undecided = true // a connection goroutine that has not reached accept yet
+		}
+	}
+	return false, undecided, false
+}
+
+// abandonProbe decides, from goroutine dumps taken while a connection makes no
+// progress, that waiting is pointless.  Two dumps at least 1.5 s apart, no
+// reply frame in between, and both times either
+//   - "abandoned": no goroutine is serving a connection the server had accepted
+//     (FSimpleServer.accept returned and left the connection open), or
+//   - "idle": the serving goroutine is parked at a request boundary, waiting
+//     for the size prefix of a NEXT frame: a simple server works a connection
+//     off sequentially, so everything sent before has been consumed and will
+//     not be answered any more.
+type abandonProbe struct {
+	leg      *streamLeg
+	key      string
+	progress func() int64 // reply frames collected on this connection
+	last     time.Time
+	lastProg int64
+	state    string
+	count    int
+	verdict  atomic.Value // string
+}
+
+func (p *abandonProbe) result() string {
+	if p == nil {
+		return ""
+	}
+	v, _ := p.verdict.Load().(string)
+	return v
+}
+
+func (p *abandonProbe) check() bool {
+	if p == nil {
+		return false
+	}
+	if p.result() != "" {
+		return true
+	}
+	if time.Since(p.last) < 1500*time.Millisecond {
+		return false
+	}
+	p.last = time.Now()
+	prog := p.progress()
+	served, undecided, idle := p.leg.serving(p.key)
+	state := ""
+	switch {
+	case undecided:
+	case !served:
+		state = "abandoned"
+	case idle:
+		state = "idle"
+	}
+	if state == "" || state != p.state || prog != p.lastProg {
+		p.state, p.count, p.lastProg = state, 0, prog
+		if state != "" {
+			p.count = 1
+		}
+		return false
+	}
+	p.count++
+	if p.count >= 2 {
+		p.verdict.Store(state)
+		return true
+	}
+	return false
 }
